@@ -122,9 +122,9 @@ pub fn plan_for(prop: &str, tier: &str) -> Option<Plan> {
             &["refused_packet_too_large", "outbound_exactly_at_max", "closed_because_ack_too_large"],
         ),
         "C15" => (
-            vec![enumerated(Scenario::FragTwin(0), 32_768), scn(Scenario::FragTwin(1), k(30_000))],
+            vec![enumerated(Scenario::FragTwin(0), 32_768), scn(Scenario::FragTwin(1), k(30_000)), enumerated(Scenario::FragTwin(2), 32_768)],
             "fault_enumeration",
-            "FragTwin(0): all 2^(n-1) chunkings of short inbound streams (enumerated); FragTwin(1): random chunkings and partial-write patterns of long scripts; delivered messages, operation results and outbound bytes must equal the unfragmented run",
+            "FragTwin(0): all 2^(n-1) chunkings of short inbound streams (enumerated); FragTwin(1): random chunkings and partial-write patterns of long scripts; FragTwin(2): the same eight streams cut at every combination of the first 8 split points with the pieces arriving 300 ms apart while a 1 s keep-alive runs (the library's own deadline fires between fragments), comparing deliveries and non-PINGREQ packets; delivered messages, operation results and outbound bytes must equal the unfragmented run",
             &["twin_fragmented"],
         ),
         "C16" => (
@@ -146,7 +146,7 @@ pub fn plan_for(prop: &str, tier: &str) -> Option<Plan> {
             &["fresh_session", "ack_failure_code"],
         ),
         "C19" => (
-            vec![prog(Invalid, k(60_000)), prog(Limits, k(15_000)), enumerated(Scenario::Table, 33_000)],
+            vec![prog(Invalid, k(60_000)), prog(Limits, k(15_000)), prog(Sessions, k(15_000)), enumerated(Scenario::Table, 33_000)],
             "fault_enumeration",
             "27 property kinds x {publish, subscribe, unsubscribe, disconnect, will} x boundary values: the will column is enumerated in every Invalid run, Table enumerates the rest in random session states; random programs issue invalid requests at random points and check that nothing of them reaches the wire and that quiescence/can_publish/handles are unchanged; Maximum QoS x requested QoS x downgrade. non-trivial = an invalid-request probe was evaluated",
             &["invalid_probe_evaluated", "will_table_entry"],
